@@ -124,8 +124,13 @@ pub struct Cfg {
     pub dir: String,
     /// the directory as `split_template` returns it (what the real builder hands to the worker)
     pub raw_dir: String,
+    /// prefix and extension as the oracle reads them off the template
     pub prefix: String,
     pub ext: String,
+    /// ... and as the library's own `dir_prefix_ext` derived them (what the worker is built with)
+    pub lib_prefix: String,
+    pub lib_ext: String,
+    pub template_misread: Option<String>,
     pub roll: Roll,
     pub reuse: bool,
     pub max_files: usize,
@@ -222,6 +227,24 @@ pub fn gen_plan(ch: &mut Choices, mode: &str, thorough: bool) -> Plan {
         }
     };
     let (dir, prefix, ext) = emit_file::verif::split_template(std::path::Path::new(template)).expect("valid template");
+    // the oracle's own reading of the template (the worker gets what the library derived; they must agree)
+    let (want_dir, want_prefix, want_ext) = match template {
+        "logs/app.log" => ("logs", "app", "log"),
+        "logs/my.app.txt" => ("logs", "my.app", "txt"),
+        "app.log" | "./app.log" => (".", "app", "log"),
+        "logs/deep/er/svc" => ("logs/deep/er", "svc", "log"),
+        "logs/a.b.c.json" => ("logs", "a.b.c", "json"),
+        "svc" => (".", "svc", "log"),
+        "logs/.hidden" => ("logs", ".hidden", "log"),
+        "logs/./app.log" => ("logs/.", "app", "log"),
+        "data/out/app.ndjson" => ("data/out", "app", "ndjson"),
+        other => panic!("template {other} missing from the oracle's table"),
+    };
+    let template_misread = (crate::simfs::norm(std::path::Path::new(&dir)) != crate::simfs::norm(std::path::Path::new(want_dir))
+        || prefix != want_prefix
+        || ext != want_ext)
+        .then(|| format!("template {template} was split into directory {dir:?}, prefix {prefix:?}, extension {ext:?}; expected {want_dir:?}, {want_prefix:?}, {want_ext:?}"));
+    let (prefix_for_oracle, ext_for_oracle) = (want_prefix.to_string(), want_ext.to_string());
     // the worker gets the directory exactly as the builder derives it; the oracle works with the normalised form
     let raw_dir = dir.clone();
     let dir = crate::simfs::norm(std::path::Path::new(&dir));
@@ -229,8 +252,11 @@ pub fn gen_plan(ch: &mut Choices, mode: &str, thorough: bool) -> Plan {
         template: template.to_string(),
         raw_dir,
         dir,
-        prefix,
-        ext,
+        lib_prefix: prefix,
+        lib_ext: ext,
+        template_misread,
+        prefix: prefix_for_oracle,
+        ext: ext_for_oracle,
         roll,
         reuse,
         max_files,
@@ -542,8 +568,8 @@ pub fn exec_plan(
             clock.clone(),
             rng.clone(),
             cfg.raw_dir.clone(),
-            cfg.prefix.clone(),
-            cfg.ext.clone(),
+            cfg.lib_prefix.clone(),
+            cfg.lib_ext.clone(),
             cfg.roll,
             cfg.reuse,
             cfg.max_files,
@@ -574,6 +600,9 @@ pub fn exec_plan(
             .collect()
     };
 
+    if let Some(why) = &cfg.template_misread {
+        violate!("C11", "template_misread", "{why}");
+    }
     let mut worker = Some(new_worker());
     // reference rolling state: the file the set is appending to
     let mut active: Option<(String, String)> = None; // (name, period)
